@@ -1111,13 +1111,10 @@ func (db *DatabaseCollectionWithUser) OnDemandImportForWrite(ctx context.Context
 	if syncDataErr := doc.validateSyncDataForImport(ctx, db.dbCtx, docid); syncDataErr != nil {
 		return syncDataErr
 	}
-	// Check whether the doc requiring import is an SDK delete
-	isDelete := false
-	if doc.Body(ctx) == nil {
-		isDelete = true
-	} else {
-		isDelete = deleted
-	}
+	// Check whether the doc requiring import is an SDK delete. This depends only on the state of the existing
+	// document: whether the write that triggered this import is itself a tombstone (deleted) is not relevant, the
+	// existing SDK mutation must be imported as a live revision before the incoming write is evaluated against it.
+	isDelete := doc.Body(ctx) == nil
 	// Use an admin-scoped database for import
 	importDb := DatabaseCollectionWithUser{DatabaseCollection: db.DatabaseCollection, user: nil}
 
